@@ -84,3 +84,15 @@ LEVEL["C16"] = ("Escape-by-enumeration: every explicit raise in parse-time code 
 NOTE["C16"] = ("Not decided: that the parsed tree selects the intended documents; implicit exceptions (IndexError, "
                "TypeError from arithmetic on node lists) are invisible to this analysis -- e.g. the pre-existing "
                "'NOT NOT x' IndexError and value-level operator tables such as GtLtPlugin.make_range are out of reach.")
+LEVEL["C13"] = ("Mirror-pipeline rules: each sortable encoder/decoder pair is normalised to a list of steps on one "
+                "running value and the decoder must be the reversed, inverted list; range checks dominate every encode; "
+                "index-time tiers and query-time tiers receive the same parameters by name; parse_range forwards "
+                "exclusivity and boost.")
+NOTE["C13"] = ("Not decided: split_ranges coverage of [start, end] (pure 2^64-domain arithmetic, not a shape fact), "
+               "Decimal scaling, float edge cases, date parsing.")
+LEVEL["C17"] = ("Who-may-pick-a-mode table over every literal analysis mode in the package, typestate over every "
+                "tokenizer (position/offset assigned before each yield when requested), format<->token attribute "
+                "agreement (C10-R3), subset relation of query-time n-gram sizes, and a container-aliasing rule for the "
+                "per-hit highlight data.")
+NOTE["C17"] = ("Not decided: the findability relation itself, stemmer behaviour, highlight substring arithmetic. "
+               "C17-R4 recognises only the listed normal forms of the clamped gram size.")
